@@ -249,6 +249,7 @@ pub fn on_server_message(sim: &mut Sim, c: usize, ch: usize, bytes: &[u8], id: u
             delivered: false,
             dropped: false,
             due_u: None,
+            due_resolvable: None,
         });
         if already > 0 {
             sim.violate("C05", "event_sent_twice", format!("event {kind:?} seq {} was put on the wire for client {c} {} times", m.seq, already + 1));
@@ -646,17 +647,6 @@ pub fn after_client_frame(sim: &mut Sim, c: usize) {
         }
     }
 
-    {
-        let sess = sim.clients[c].sess.as_mut().unwrap();
-        let applied_any = sess.upd_delivered > 0;
-        for list in sess.sev_sent.values_mut() {
-            for e in list.iter_mut() {
-                if e.delivered && e.due_u.is_none() && e.stamp.map(|s| s <= u && (applied_any || s == 0)).unwrap_or(true) {
-                    e.due_u = Some(u);
-                }
-            }
-        }
-    }
     let sess = sim.clients[c].sess.as_ref().unwrap();
     // ---- C03: structure equals the server's at the reported update tick
     if u < sess.last_u {
@@ -677,6 +667,17 @@ pub fn after_client_frame(sim: &mut Sim, c: usize) {
             None => None,
         }
     };
+    // Events that became due in this frame: was their entity reference resolvable at this moment?
+    let mut due_now: Vec<(u32, u64, Option<bool>)> = vec![];
+    for (seq, list) in sess.sev_sent.iter() {
+        for e in list.iter() {
+            if e.delivered && e.due_u.is_none() && e.stamp.map(|s| s <= u && (applied_any || s == 0)).unwrap_or(true) {
+                let target = sim.sev.iter().find(|x| x.seq == *seq).and_then(|x| x.target);
+                let res = target.map(|t| expected.as_ref().map(|x| x.contains_key(&t)).unwrap_or(false));
+                due_now.push((*seq, e.msg_id, res));
+            }
+        }
+    }
     if let Some(exp) = &expected {
         for (se, (cc, marker, comps, lt)) in &held {
             match exp.get(se) {
@@ -1137,6 +1138,14 @@ pub fn after_client_frame(sim: &mut Sim, c: usize) {
     for cell in f20_healed {
         sess.f20_cells.remove(&cell);
     }
+    for (seq, id, res) in due_now {
+        if let Some(list) = sess.sev_sent.get_mut(&seq) {
+            for e in list.iter_mut().filter(|e| e.msg_id == id) {
+                e.due_u = Some(u);
+                e.due_resolvable = res;
+            }
+        }
+    }
     if let Some((conf, pred, hist)) = conf_commit {
         sess.conf = conf;
         sess.pred = pred;
@@ -1358,9 +1367,9 @@ pub fn end_of_run(sim: &mut Sim) {
                 // require the target to be replicated to the client from the flush tick onwards.
                 // The client resolves the reference in the frame in which the event became due; at that
                 // moment it holds what the server had replicated to it at its update tick.
-                let due = sess.sev_sent.get(&e.seq).and_then(|l| l.iter().find_map(|s| s.due_u));
-                let resolvable = match (e.target, due) {
-                    (Some(t), Some(u)) => sess.upd_delivered > 0 && sim.snaps.get(&u).map(|s| s.vis[c].as_ref().map(|v| v.contains(&t)).unwrap_or(false)).unwrap_or(false),
+                let sent = sess.sev_sent.get(&e.seq).and_then(|l| l.iter().find(|s| s.due_u.is_some()));
+                let resolvable = match (e.target, sent) {
+                    (Some(_), Some(s)) => s.due_resolvable.unwrap_or(false),
                     (Some(_), None) => false,
                     (None, _) => true,
                 };
